@@ -86,6 +86,48 @@ CHECKS = {
         "note": "Missing positive attribute: the documented guess (majority of values > 0 => down) is the reference, and the documented warning is required.",
         "design": "5/C13",
     },
+    "C14": {
+        "technique": "property-based testing with a validity-predicate oracle (many triangulations are correct): counts, own vertices, containment, area sum and union area per cell",
+        "text": "Datasets of every convention with holes, plus meshes built to contain convex faces, concave polyomino faces with exactly collinear vertices (unjittered lattice), star-shaped concave faces with 4-8 vertices at random radii, 5- and 7-gons, bow-tie faces, clockwise and anticlockwise winding and every ring rotation. For every cell: exactly n-2 triangles (n = distinct consecutive corners), every triangle vertex is a vertex of that cell, every triangle lies inside the cell, areas sum to the cell's area and the union has the cell's area (no overlap, no gap); no triangles for cells without geometry; all indexes valid; no duplicate vertex rows.",
+        "note": "Relative area tolerance 1e-9. A corner listed twice in a row counts once.",
+        "design": "5/C14",
+    },
+    "C15": {
+        "technique": "property-based testing: round trip through independent readers (json, pyshp Reader, shapely.from_wkt/from_wkb) with exact coordinate comparison",
+        "text": "Datasets of every convention (holes anywhere incl. the first cell, bow-tie faces, native indexes with and without grid kind, coordinates with up to 10 binary decimals) are exported as GeoJSON, Shapefile, WKT and WKB through operations.geometry.write_*; the files are read back with independent readers; the k-th geometry must be the polygon of the k-th cell with geometry with identical coordinates, and GeoJSON properties / shapefile records must carry the linear index and a native index that ravel_index maps back to that cell.",
+        "note": "Rings compared up to start vertex and direction. Coordinates compared exactly.",
+        "design": "5/C15",
+    },
+    "C16": {
+        "technique": "property-based testing with metamorphic relations (invariance / sensitivity under single edits derived from one dataset), fresh-interpreter differential over hash seeds, known-finding matcher",
+        "text": "All variants are derived from one built dataset so attribute objects are shared: 7 kinds of non-geometry edit must leave the key unchanged, single geometry edits (one value, dtype with equal values, dtype with identical bytes, shape with identical bytes, consistent rename, attribute add/change/remove, convention class differing only in name or only in module) must change it; the same netCDF files opened in fresh interpreters with PYTHONHASHSEED 0, 1 and random must give the parent's keys; equal attribute dicts rebuilt from fresh string objects must give the same key (fails: listed known finding, matched exactly).",
+        "note": "Known finding KF-cache-key-attribute-identity (marshal of attributes depends on object identity / reference counts) is reported as KNOWN-FINDING and excluded from the search by a matcher that re-derives it; process independence is explored on this machine and Python version only.",
+        "design": "5/C16",
+    },
+    "C17": {
+        "technique": "property-based testing: reference instant computed from generated components + independent regex parser of the EMS form; exhaustive offset x spelling x period grid; netCDF round trip inspected with xarray and netCDF4",
+        "text": "format_time_units_for_ems on generated unit strings (4 periods, epochs 1700-2200 at any time of day, offsets on every quarter hour from -12:00 to +14:00 plus Z and none, 'T' or space, with or without seconds, +HH:MM / +HHMM / +HH, optional space, 4 calendars) must return the EMS form denoting the same instant (also according to cftime) - an exception is a violation; the full offsets x spellings x periods grid is enumerated. Datasets of every convention with such time units and integer or fractional steps are saved through ems.to_netcdf / to_netcdf_with_fixes and reopened: same convention, identical polygons, values and time instants, EMS-form units in the file, no new _FillValue attributes.",
+        "note": "Input offsets use two-digit hours, Z or nothing (cftime ignores one-digit-hour offsets).",
+        "design": "5/C17",
+    },
+    "C18": {
+        "technique": "property-based testing: exact rational clipping of the path against every cell (independent of GEOS) as length oracle; order and index invariants; data decoded against the spec",
+        "text": "Datasets of every convention (holes, skewed cells, concave mesh faces) with a depth coordinate x simple polylines of 2-6 vertices built from cell vertices, edge points, interiors, hole interiors and points outside the model. Per cell the segments naming it must lie in the cell and on the path, not overlap, and have total length equal to the exactly computed length of the path inside that cell (zero for untouched cells and holes); indexes and polygon must agree with R-index; start <= end, the list sorted by start distance, distance monotone in the path parameter; transect_dataset and prepare_data_array_for_transect must list exactly the segments' cells and carry the spec's values at every depth (and time).",
+        "note": "cfunits is stubbed; cartopy's Geodetic CRS stands in for PlateCarree as data_crs because this sandbox's cartopy 0.25 / PROJ 9.8 pair distorts PlateCarree latitudes (DESIGN.md section 9).",
+        "design": "5/C18",
+    },
+    "C19": {
+        "technique": "property-based testing: artist internals (paths, array, clim, stored transform, quiver X/Y/U/V/Umask) compared with the spec",
+        "text": "Datasets of every convention with holes before valid cells, bow-tie faces and meshes mixing 3-8 sided faces; face variables with grid dimensions in any order, missing values, optional extra dimension; scalar by name, as DataArray or absent; array= / clim= / transform= / extra keyword overrides; vector pairs. Patch k must trace the k-th cell with geometry exactly and carry its stored value, default clim must span exactly the plotted values, overrides must be honoured, arrows must sit at face_centres[n] with the stored (u, v) (hidden iff a component is missing), and data+array=, leftover dimensions or mismatched vector dimensions must be refused.",
+        "note": "Artists are inspected without drawing; Agg backend.",
+        "design": "5/C19",
+    },
+    "C20": {
+        "technique": "property-based testing: independent hand-written parser of the bounds grammar as oracle incl. near-miss strings; differential comparison of CLI output files with library results; failure-path invariants; subprocess sample",
+        "text": "bounds_argument / geometry_argument on grammar-generated strings (minus, 1 / 1. / .5 / 1.5, underscores, spaces around commas, Unicode digits) and 21 kinds of near-miss must accept exactly what an independent split-and-recognise parser accepts, with the same four numbers; GeoJSON strings and files valid and invalid. clip (bounds, GeoJSON string, GeoJSON file), extract-points (hits and misses x error/drop/fill/default x custom columns and dimension) and export-geometry (explicit or guessed format) run in process on datasets of every auto-detectable convention and are compared with the files the library calls produce (xarray identical + raw units; byte equality for exports); failures must exit non-zero with a message and leave no output file; a sample runs as python -m emsarray.",
+        "note": "Whitespace before the first / after the last number is not asserted either way.",
+        "design": "5/C20",
+    },
 }
 
 NOT_BUILT_REASON = "check not built yet in this session (work in progress; planned in DESIGN.md section 5)"
